@@ -248,18 +248,20 @@ class Check:
         mod = importlib.import_module(f"mxverif.checks.{other_pid.lower()}")
         cls = next(v for v in vars(mod).values() if isinstance(v, type) and issubclass(v, Check) and v is not Check and getattr(v, "pid", "") == other_pid)
         other = cls(self.prog, "quick")
+        failed = None
         try:
             other.run()
         except AnalysisError as e:
-            self.undecided_ob(as_rule, "-", f"<{other_pid}>", f"{other_pid} rules {'/'.join(rule_ids)}", 0, f"sibling analysis failed: {e}")
-            return
+            failed = e  # what the sibling decided before it stopped is still taken over
         n = 0
         for o in other.obs:
             if o.rule in rule_ids:
                 n += 1
                 self.obs.append(Ob(as_rule, o.module, o.function, f"{other_pid}/{o.rule} {o.construct}", o.verdict, o.line, o.why, o.witness))
                 self.functions_analysed.add(f"{o.module}:{o.function}")
-        if n == 0:
+        if failed is not None:
+            self.undecided_ob(as_rule, "-", f"<{other_pid}>", f"{other_pid} rules {'/'.join(rule_ids)}", 0, f"sibling analysis failed: {failed}")
+        elif n == 0:
             self.undecided_ob(as_rule, "-", f"<{other_pid}>", f"{other_pid} rules {'/'.join(rule_ids)}", 0, "the sibling produced no obligation for these rules")
 
     def run(self) -> None:  # pragma: no cover - abstract
@@ -315,13 +317,18 @@ def run_check(
     t0 = time.time()
     pid = cls.pid
     out = (lambda *a: None) if quiet else print
+    partial: str | None = None
+    chk = None
     try:
         prog = Program(repo)
         chk = cls(prog, tier)
         evaluate(chk)
     except AnalysisError as e:
-        out(f"ANALYSIS-ERROR property={pid} {e}")
-        return 2
+        # a rule could not read its function: what the other rules have already decided still counts (a definite violation stays one)
+        if chk is None or not any(o.verdict == VIOLATED for o in chk.obs):
+            out(f"ANALYSIS-ERROR property={pid} {e}")
+            return 2
+        partial = str(e)
     except Exception as e:  # noqa: BLE001 - every traceback is converted
         import traceback
 
@@ -336,8 +343,10 @@ def run_check(
     counts: dict[str, int] = {}
     for o in chk.obs:
         counts[o.rule] = counts.get(o.rule, 0) + 1
+    if partial is not None:
+        problems.append(f"analysis stopped early: {partial}")
     for rule, floor in cls.floors.items():
-        if counts.get(rule, 0) < floor:
+        if partial is None and counts.get(rule, 0) < floor:
             problems.append(
                 f"rule {rule} matched {counts.get(rule, 0)} constructs, floor is {floor} (vacuous pass refused)"
             )
